@@ -22,6 +22,11 @@ pub struct Cfg {
     /// FDT symbol size (512 => multi-packet instance)
     pub fdt_e: u16,
     pub with_empty: bool,
+    /// max_transfer_count of the carouselled objects (copies per carousel turn)
+    #[serde(default)]
+    pub count: u32,
+    #[serde(default)]
+    pub interleave: u8,
 }
 
 #[derive(Serialize, Deserialize, Clone, Debug)]
@@ -54,10 +59,12 @@ pub fn prepare(c: &Cfg) -> Result<Prepared, String> {
         o.text = o.cenc != 0;
         o.inband_cenc = c.inband;
         o.carousel = Some(if c.interval { Carousel::Interval(1000) } else { Carousel::Delay(500) });
+        o.count = c.count.max(1);
         objs.push(o);
     }
     let mut s = SessSpec::basic(OtiSpec::new(Scheme::NoCode, c.fdt_e, 64, 0, true));
     s.full_fdt = c.full_fdt;
+    s.interleave = c.interleave.max(1);
     s.queues = vec![(0, 2)];
     let spec = RecSpec { sess: s, objs: objs.clone(), polls_ms: POLLS.to_vec() };
     let rec = record(&spec)?;
@@ -141,16 +148,18 @@ pub fn configs(thorough: bool) -> Vec<Cfg> {
                         for full_fdt in [true, false] {
                             for fdt_e in [1424u16, 512] {
                                 for with_empty in [false, true] {
-                                    if !thorough {
-                                        let k = nobj + inband as usize + (cenc != 0) as usize + interval as usize + full_fdt as usize + (fdt_e == 512) as usize + with_empty as usize + scheme as usize;
-                                        if k % 3 != 0 {
+                                    for (count, interleave) in [(1u32, 1u8), (2, 1), (1, 2), (2, 3)] {
+                                        if !thorough {
+                                            let k = nobj + inband as usize + (cenc != 0) as usize + interval as usize + full_fdt as usize + (fdt_e == 512) as usize + with_empty as usize + scheme as usize + count as usize + interleave as usize;
+                                            if k % 5 != 0 {
+                                                continue;
+                                            }
+                                        }
+                                        if with_empty && nobj == 1 && cenc != 0 {
                                             continue;
                                         }
+                                        v.push(Cfg { scheme, nobj, inband, cenc, interval, full_fdt, fdt_e, with_empty, count, interleave });
                                     }
-                                    if with_empty && nobj == 1 && cenc != 0 {
-                                        continue;
-                                    }
-                                    v.push(Cfg { scheme, nobj, inband, cenc, interval, full_fdt, fdt_e, with_empty });
                                 }
                             }
                         }
